@@ -49,6 +49,9 @@ STATEFUL = {"center", "scale:B", "poly", "bs", "many-factors", "dict-spec", "C-s
 CORE = ["a+A", "center", "dict-spec"]
 CORE_THOROUGH = ["a+A", "center", "poly", "dict-spec", "scale:B", "two-sided", "many-factors", "list-spec"]
 DATA = ("d0", "d1", "d2")
+# a dict-of-columns input ("dd" in the runtime) is rejected by the library on this Python ('builtins.dict' is not a
+# registered input type), so it is not drawn; the runtime keeps supporting it.
+DATA_ALL = DATA
 OUTPUTS = ("pandas", "numpy", "sparse")
 BUILD_KINDS = ("mm", "Fmm", "uspec")
 SEEDS = ("0", "1", "2", "3", "random")
@@ -118,10 +121,10 @@ def random_histories(rng, count):
         for i in range(length):
             builds = [j for j, o in enumerate(h) if o[0] in BUILD_KINDS]
             if builds and rng.random() < 0.4:
-                h.append([rng.choice(["reuse", "reuse", "mm_of"]), rng.choice(builds), rng.choice(DATA)])
+                h.append([rng.choice(["reuse", "reuse", "mm_of"]), rng.choice(builds), rng.choice(DATA_ALL)])
             else:
                 s = rng.choice(focus) if rng.random() < 0.8 else rng.choice(names)
-                h.append([rng.choice(BUILD_KINDS), SPECS[s], rng.choice(DATA), rng.choice(OUTPUTS)])
+                h.append([rng.choice(BUILD_KINDS), SPECS[s], rng.choice(DATA_ALL), rng.choice(OUTPUTS)])
         yield h
 
 
